@@ -532,7 +532,7 @@ impl Accept {
     ensures
         final(self).handles@ == swap_removed(old(self).handles@, old(self).next as int),   // [C01,C08]
         final(self).avail@ == old(self).avail@.remove(old(self).handles@[old(self).next as int].spec_idx()),   // [C01,C03,C04,C08] exactly the removed worker's bit is cleared: no live worker loses its availability
-        final(self).srv.faulted() == old(self).srv.faulted().push(old(self).handles@[old(self).next as int].spec_idx()),   // [C01,C08]
+        final(self).srv.faulted() == old(self).srv.faulted().push(old(self).handles@[old(self).next as int].spec_idx()),   // [C01,C04,C08] the WORKER INDEX is reported (a wrong index gets a second worker started under an index in use)
         final(self).next == old(self).next,
         final(self).same_ctl(old(self)),
 //@end
